@@ -167,7 +167,7 @@ fn spike_position(max_per_kind: u32) -> [u64; 16] {
 #[kani::unwind(8)]
 #[kani::stub(crate::attacks::AttackGenerator::compute, stub_compute_spike)]
 fn c10_from_occupancy_spike() {
-    from_occupancy_spike(5)
+    from_occupancy_spike(3)
 }
 
 #[kani::proof]
@@ -212,7 +212,7 @@ fn c10_board_queries_contract() {
 #[kani::unwind(8)]
 #[kani::stub(crate::attacks::AttackGenerator::compute, stub_compute_spike)]
 fn c10_board_queries_quick() {
-    let p = spike_position(5);
+    let p = spike_position(3);
     let board = board_from(&p);
     let c = any_color();
     let spec = spike_expect(&p, c, false);
